@@ -185,7 +185,7 @@ abbrev LoopRes := GDNSEntry × Int × Bool × Bytes
     on success the loop continues with an entry that is the model's, on a failure the state is the entry as it was -/
 def StepRel (L : GDNSEntry → Int → Bool → Bytes → OutcomeS GDNSEntry LoopRes) (e : GDNSEntry) (updated : Bool)
     (lhs : GDNSEntry × Outcome LoopRes) : Outcome (DNSEntry × Nat × Bool) → Prop
-  | .ok (e1, off', u) => ∃ e' tb', Good e' ∧ entryView e' = e1 ∧ lhs = (L e' (off' : Int) (updated || u) tb').run e'
+  | .ok (e1, off', u) => ∃ e' tb', Good e' ∧ entryView e' = e1 ∧ e'.Name = e.Name ∧ lhs = (L e' (off' : Int) (updated || u) tb').run e'
   | .err er => lhs = (e, .err er)
   | .panic => lhs = (e, .panic)
   | .hang => lhs = (e, .hang)
@@ -241,11 +241,11 @@ theorem rrStep (parseIP : Bytes → Bytes) (ip6 : Bytes → PtrIP) (hP : ∀ s, 
       rw [hh, insertBlock]
       by_cases hm : mapHas e.IP4Records ip = true
       · simp only [hm, if_true, StepRel]
-        exact ⟨e, b, hg, rfl, by simp⟩
+        exact ⟨e, b, hg, rfl, rfl, by simp⟩
       · obtain ⟨m', hs, hk', hv⟩ := mapSet_fresh hg.ip4 ip ({ Name := name, IP := ip, TTL := TTL } : GIPResourceRecord)
           (by simpa using hm) rfl
         simp only [hm, hs, StepRel]
-        refine ⟨{ e with IP4Records := m' }, b, ⟨hk', hg.ip6, hg.cn, hg.ptr⟩, ?_, by simp⟩
+        refine ⟨{ e with IP4Records := m' }, b, ⟨hk', hg.ip6, hg.cn, hg.ptr⟩, ?_, rfl, by simp⟩
         simp only [entryView, hv, ipRecView]
     · have hDn := u16_ne hD
       have : (4 : UInt16).toNat = 4 := rfl
@@ -274,11 +274,11 @@ theorem rrStep (parseIP : Bytes → Bytes) (ip6 : Bytes → PtrIP) (hP : ∀ s, 
       rw [hh, insertBlock]
       by_cases hm : mapHas e.IP6Records ip = true
       · simp only [hm, if_true, StepRel]
-        exact ⟨e, b, hg, rfl, by simp⟩
+        exact ⟨e, b, hg, rfl, rfl, by simp⟩
       · obtain ⟨m', hs, hk', hv⟩ := mapSet_fresh hg.ip6 ip ({ Name := name, IP := ip, TTL := TTL } : GIPResourceRecord)
           (by simpa using hm) rfl
         simp only [hm, hs, StepRel]
-        refine ⟨{ e with IP6Records := m' }, b, ⟨hg.ip4, hk', hg.cn, hg.ptr⟩, ?_, by simp⟩
+        refine ⟨{ e with IP6Records := m' }, b, ⟨hg.ip4, hk', hg.cn, hg.ptr⟩, ?_, rfl, by simp⟩
         simp only [entryView, hv, ipRecView]
     · have hDn := u16_ne hD
       have : (16 : UInt16).toNat = 16 := rfl
@@ -304,11 +304,11 @@ theorem rrStep (parseIP : Bytes → Bytes) (ip6 : Bytes → PtrIP) (hP : ∀ s, 
     rw [hh, insertBlock]
     by_cases hm : mapHas e.CNameRecords name = true
     · simp only [hm, if_true, StepRel]
-      exact ⟨e, b2, hg, rfl, by simp⟩
+      exact ⟨e, b2, hg, rfl, rfl, by simp⟩
     · obtain ⟨m', hs, hk', hv⟩ := mapSet_fresh hg.cn name ({ Name := name, CName := cname, TTL := TTL } : GNameResourceRecord)
         (by simpa using hm) rfl
       simp only [hm, hs, StepRel]
-      refine ⟨{ e with CNameRecords := m' }, b2, ⟨hg.ip4, hg.ip6, hk', hg.ptr⟩, ?_, by simp⟩
+      refine ⟨{ e with CNameRecords := m' }, b2, ⟨hg.ip4, hg.ip6, hk', hg.ptr⟩, ?_, rfl, by simp⟩
       simp only [entryView, hv, nameRecView]
   have hTn5 := u16_ne hT5
   have : (5 : UInt16).toNat = 5 := rfl
@@ -318,7 +318,7 @@ theorem rrStep (parseIP : Bytes → Bytes) (ip6 : Bytes → PtrIP) (hP : ∀ s, 
   · subst hT15
     have : (15 : UInt16).toNat = 15 := rfl
     simp only [this, if_true, StepRel]
-    exact ⟨e, b, hg, rfl, by simp⟩
+    exact ⟨e, b, hg, rfl, rfl, by simp⟩
   have hTn15 := u16_ne hT15
   have : (15 : UInt16).toNat = 15 := rfl
   rw [this] at hTn15
@@ -333,12 +333,12 @@ theorem rrStep (parseIP : Bytes → Bytes) (ip6 : Bytes → PtrIP) (hP : ∀ s, 
     unfold ptrView
     by_cases ht : tmp = []
     · simp only [ht, if_true, StepRel]
-      exact ⟨e, b, hg, rfl, by simp⟩
+      exact ⟨e, b, hg, rfl, rfl, by simp⟩
     simp only [ht, if_false]
     rcases ipTo4_shape tmp with h4 | ⟨x0, x1, x2, x3, h4⟩
     · rw [h4]
       simp only [if_true, StepRel]
-      exact ⟨e, b, hg, rfl, by simp⟩
+      exact ⟨e, b, hg, rfl, rfl, by simp⟩
     rw [h4]
     have i3 : idxI [x0, x1, x2, x3] 3 = .ok x3 := rfl
     have i2 : idxI [x0, x1, x2, x3] 2 = .ok x2 := rfl
@@ -356,17 +356,17 @@ theorem rrStep (parseIP : Bytes → Bytes) (ip6 : Bytes → PtrIP) (hP : ∀ s, 
     rw [hh, insertBlock]
     by_cases hm : mapHas e.PTRRecords pn = true
     · simp only [hm, if_true, StepRel]
-      exact ⟨e, b2, hg, rfl, by simp⟩
+      exact ⟨e, b2, hg, rfl, rfl, by simp⟩
     · obtain ⟨m', hs, hk', hv⟩ := mapSet_fresh hg.ptr pn ({ Name := pn, IP := [x3, x2, x1, x0], TTL := TTL } : GIPResourceRecord)
         (by simpa using hm) rfl
       simp only [hm, hs, StepRel]
-      refine ⟨{ e with PTRRecords := m' }, b2, ⟨hg.ip4, hg.ip6, hg.cn, hk'⟩, ?_, by simp⟩
+      refine ⟨{ e with PTRRecords := m' }, b2, ⟨hg.ip4, hg.ip6, hg.cn, hk'⟩, ?_, rfl, by simp⟩
       simp only [entryView, hv, ipRecView, UInt8.ofNat_toNat]
   have hTn12 := u16_ne hT12
   have : (12 : UInt16).toNat = 12 := rfl
   rw [this] at hTn12
   simp only [hT12, hTn12, if_false, StepRel]
-  exact ⟨e, b, hg, rfl, by simp⟩
+  exact ⟨e, b, hg, rfl, rfl, by simp⟩
 
 /-! ### the whole loop -/
 
@@ -381,7 +381,7 @@ theorem rrLoop_eq (parseIP : Bytes → Bytes) (ip6 : Bytes → PtrIP) (hP : ∀ 
     Good e → (count - i).toNat + 1 ≤ fuel →
     ∃ e' r, (genDNSEntry_decodeRRs_loop1 parseIP count p buffer fuel e offset updated tmpBuf i).run e = (e', r) ∧ Good e' ∧
       (entryView e', omap loopView r) = Model.decodeRRs ip6 (count - i).toNat (entryView e) p offset updated ∧
-      ∀ v, r = .ok v → v.1 = e' := by
+      (∀ v, r = .ok v → v.1 = e') ∧ e'.Name = e.Name := by
   intro fuel
   induction fuel with
   | zero => intro e offset updated tmpBuf i _ hf; omega
@@ -396,17 +396,17 @@ theorem rrLoop_eq (parseIP : Bytes → Bytes) (ip6 : Bytes → PtrIP) (hP : ∀ 
       | ok v =>
         obtain ⟨e1, off', u⟩ := v
         rw [hm] at step
-        obtain ⟨e1', tb', hg', hv, heq⟩ := step
-        obtain ⟨e', r, h1, h2, h3, h4⟩ := ih e1' (off' : Int) (updated || u) tb' (i + 1) hg' (by omega)
-        refine ⟨e', r, by rw [heq, h1], h2, ?_, h4⟩
+        obtain ⟨e1', tb', hg', hv, hnm, heq⟩ := step
+        obtain ⟨e', r, h1, h2, h3, h4, h5⟩ := ih e1' (off' : Int) (updated || u) tb' (i + 1) hg' (by omega)
+        refine ⟨e', r, by rw [heq, h1], h2, ?_, h4, by rw [h5, hnm]⟩
         rw [h3, hn', hv]
-      | err er => rw [hm] at step; exact ⟨e, .err er, step, hg, rfl, fun v h => by cases h⟩
-      | panic => rw [hm] at step; exact ⟨e, .panic, step, hg, rfl, fun v h => by cases h⟩
-      | hang => rw [hm] at step; exact ⟨e, .hang, step, hg, rfl, fun v h => by cases h⟩
+      | err er => rw [hm] at step; exact ⟨e, .err er, step, hg, rfl, (fun v h => by cases h), rfl⟩
+      | panic => rw [hm] at step; exact ⟨e, .panic, step, hg, rfl, (fun v h => by cases h), rfl⟩
+      | hang => rw [hm] at step; exact ⟨e, .hang, step, hg, rfl, (fun v h => by cases h), rfl⟩
     · have hn : (count - i).toNat = 0 := by omega
       rw [genDNSEntry_decodeRRs_loop1, hn, Model.decodeRRs]
       simp only [hi, if_false, OutcomeS.run_pure]
-      exact ⟨e, _, rfl, hg, rfl, fun v h => by cases h; rfl⟩
+      exact ⟨e, _, rfl, hg, rfl, (fun v h => by cases h; rfl), rfl⟩
 
 /-! ### `decodeRRs` itself: the four `make`s, the loop, the results -/
 
